@@ -455,3 +455,37 @@ fn probe_fresh_secrets_whatever_the_call_order() {
         assert!(pubs[i] != pubs[j], "headers {j} and {i} carry the same ephemeral public key (same wrapping key and nonce for two archive keys)");
     } }
 }
+
+/// C03/C04: the tag comparison is EXACT: a stored tag that differs from the computed one in ANY way -- one bit, two bytes changed by
+/// the same delta, every byte changed by the same delta, two bytes swapped, the bytes rotated or reversed (alterations that keep
+/// the XOR / the sum / the multiset of the tag bytes) -- makes the normal reader fail and the authenticated repair stop before
+/// that chunk. BOUND: these 7 alteration kinds x chunks 1 and 2 of a 3-chunk stream.
+#[test]
+fn probe_tag_comparison_is_exact() {
+    let n = 2 * C + 500;
+    let good = penc(n);
+    for chunk in [1usize, 2] {
+        let tag_at = chunk * (C + 16) + if chunk == 2 { 500 } else { C };
+        for kind in 0..7 {
+            let mut s = good.clone();
+            let t = &mut s[tag_at..tag_at + 16];
+            match kind {
+                0 => t[5] ^= 0x01,
+                1 => { t[2] ^= 0x5a; t[9] ^= 0x5a; }
+                2 => for b in t.iter_mut() { *b ^= 0x33; },
+                3 => t.swap(0, 1),
+                4 => t.rotate_left(1),
+                5 => t.reverse(),
+                _ => { t[0] = t[0].wrapping_add(1); t[1] = t[1].wrapping_sub(1); }
+            }
+            if s == good { continue; } // (swap / rotation of equal bytes)
+            let mut r = preader(&s);
+            let mut out = Vec::new();
+            let res = r.read_to_end(&mut out);
+            assert!(res.is_err(), "tag of chunk {chunk} altered (kind {kind}): the normal reader read the whole stream without an error");
+            let limit = chunk * C;
+            let a = pfailsafe_read_all_with(&s, FailSafeReaderDecryptionMode::OnlyAuthenticatedData, 70000);
+            assert!(a.len() <= limit && a[..] == pdata(n)[..a.len()], "tag of chunk {chunk} altered (kind {kind}): authenticated repair returned {} bytes, only the {limit} bytes before that chunk are authenticated", a.len());
+        }
+    }
+}
